@@ -263,17 +263,78 @@ theorem getBox_none_of_not_hasChan (m : Mgr) (c : Nat) (h : m.hasChan c = false)
     have : m.chans.any (·.id == c) = true := List.any_eq_true.2 ⟨ch, hm, hid⟩
     rw [this] at h; cases h
 
-theorem minv_addChan {O log keys org start m} (h : MInv O log keys org start m) (c : Nat) (pts : Int)
-    (hk : 2 + c ∈ keys) (hb : m.getBox (2 + c) = none) (hs : start (2 + c) = pts) :
-    MInv O log keys org start (m.addChan c pts) := by
-  refine ⟨coh_addChan h.coh c pts hk hb hs, h.p0, h.q0, h.c0, ?_, h.internal, h.startP, h.startC, h.parked⟩
+/-- What the storage holds for a channel, read off the trace, is the last store of the channel's
+projection of the trace. -/
+theorem lastStoreChan_proj (log : List Entry) (c : Nat) (v0 : Int) : ∀ (tr : List Event) (o : Option Int),
+    lastStore (o.getD v0) (projSeq log (2 + c) tr) = (lastStoreChan c o tr).getD v0 := by
+  intro tr
+  induction tr with
+  | nil => intro o; rfl
+  | cons ev r ih =>
+    intro o
+    have h0 : ¬ (2 + c = 0) := by omega
+    have h1 : ¬ (2 + c = 1) := by omega
+    cases ev with
+    | dispatch ids =>
+      simp only [projSeq, lastStoreChan]
+      split
+      · exact ih o
+      · simp only [List.cons_append, List.nil_append, lastStore]; exact ih o
+    | storeChan c' v =>
+      simp only [projSeq, lastStoreChan]
+      by_cases hc : c' = c
+      · subst hc
+        simp only [if_true, List.cons_append, List.nil_append, lastStore]
+        exact ih (some v)
+      · have : ¬ (2 + c = 2 + c') := by omega
+        simp only [this, hc, if_false, List.nil_append]
+        exact ih o
+    | storePts v => simp only [projSeq, lastStoreChan, h0, if_false, List.nil_append]; exact ih o
+    | storeQts v => simp only [projSeq, lastStoreChan, h1, if_false, List.nil_append]; exact ih o
+    | storeState p q => simp only [projSeq, lastStoreChan, h0, h1, if_false, List.nil_append]; exact ih o
+    | apiDiff p q => simp only [projSeq, lastStoreChan, List.nil_append]; exact ih o
+    | apiChDiff c' p => simp only [projSeq, lastStoreChan, List.nil_append]; exact ih o
+    | tooLong => simp only [projSeq, lastStoreChan, h0, if_false, List.nil_append]; exact ih o
+    | chTooLong c' =>
+      simp only [projSeq, lastStoreChan]
+      split
+      · simp only [List.cons_append, List.nil_append, lastStore]; exact ih o
+      · exact ih o
+    | apiRestore p q => simp only [projSeq, lastStoreChan, List.nil_append]; exact ih o
+    | storeSeq v => simp only [projSeq, lastStoreChan, List.nil_append]; exact ih o
+    | inaccessible c' => simp only [projSeq, lastStoreChan, List.nil_append]; exact ih o
+
+/-- **What the storage holds for a sequence is where its box is** (or, if the worker is gone,
+where it was): every change of the position is written, and nothing else is. -/
+theorem replay_state_stored {O log keys org start m} (hO : GoodOrders O) (h : MInv O log keys org start m)
+    (k : Nat) (hk : k ∈ keys) :
+    (replay O log start m.ops k).1.state = lastStore (start k) (projSeq log k m.trace) := by
+  rw [h.coh.tr k hk]
+  exact (srun_lastStore (seqLog log k) (cfgOf O log k) (goodCfg_of O hO log k) _ { state := start k } (h.coh.wf k hk)).symm
+
+theorem queues_recreate (m : Mgr) (c : Nat) (v : Int) : (m.recreate c v).queues = m.queues ++ [(c, [])] := by
+  simp [Mgr.recreate, Mgr.addChan, Mgr.logOp, Mgr.queues]
+
+/-- A worker is (re)started at the position the storage holds. -/
+theorem minv_recreate {O log keys org start m} (hO : GoodOrders O) (h : MInv O log keys org start m) (c : Nat) (v : Int)
+    (hk : 2 + c ∈ keys) (hb : m.getBox (2 + c) = none)
+    (hv : v = lastStore (start (2 + c)) (projSeq log (2 + c) m.trace)) :
+    MInv O log keys org start (m.recreate c v) := by
+  have hv' : v = (replay O log start m.ops (2 + c)).1.state := by rw [hv, replay_state_stored hO h _ hk]
+  rw [hv']
+  refine ⟨coh_recreate h.coh c hk hb, h.p0, h.q0, h.c0, ?_, h.internal, h.startP, h.startC, h.parked⟩
   intro q hq
-  rw [queues_addChan] at hq
+  rw [queues_recreate] at hq
   rcases List.mem_append.1 hq with h' | h'
   · exact h.queues q h'
   · simp only [List.mem_singleton] at h'
     subst h'
     exact ⟨hk, fun it hit => by simp at hit⟩
+
+theorem getBox_recreate_same (m : Mgr) (c : Nat) (v : Int) (h : m.getBox (2 + c) = none) :
+    (m.recreate c v).getBox (2 + c) = some { state := v } := by
+  show (m.addChan c v).getBox (2 + c) = _
+  exact getBox_addChan_same m c v h
 
 theorem minv_bad {O log keys org start m} (h : MInv O log keys org start m) :
     MInv O log keys org start { m with bad := true } :=
@@ -291,25 +352,48 @@ theorem minv_firstContact {O log keys org start m} (hO : GoodOrders O) (hS : Scn
   · split
     · rename_i sp hsp
       obtain ⟨hst, hk⟩ := h.startP e.chan sp hsp
-      have h1 := minv_addChan h e.chan sp.2 hk hb hst
+      have h1 := minv_recreate hO h e.chan ((lastStoreChan e.chan (some sp.2) m.trace).getD sp.2) hk hb
+        (by rw [hst]; exact (lastStoreChan_proj log e.chan sp.2 m.trace (some sp.2)).symm)
       exact minv_pushChan (minv_pushChan h1 e.chan .subscribe trivial) e.chan (.upd e) ⟨hek, Or.inl he⟩
     · rename_i hsp
       split
       · exact minv_bad h
       · rename_i d hd
         obtain ⟨hst, hk⟩ := h.startC e.chan d hsp hd
+        have hproj := lastStoreChan_proj log e.chan d.2 m.trace none
+        simp only [Option.getD_none] at hproj
         split
-        · have h1 := minv_addChan h e.chan d.2 hk hb hst
-          have h2 : MInv O log keys org start ((m.addChan e.chan d.2).seqOp O (2 + e.chan)
-              (.seq storeOnlyShape (if O.creationStoresLocal then d.2 else e.pos) [])) := by
-            apply minv_seqOp hO hS h1
-            · intro b hb'
-              rw [getBox_addChan_same m e.chan d.2 hb] at hb'
-              rw [← Option.some.inj hb', hO.creationStoresLocal]
-              simp [wfOp, storeOnlyShape, diffShape, emptyShape, tooLongShape, cbOnlyShape]
-            · intro h1'; omega
-          exact minv_pushChan (minv_pushChan h2 e.chan .subscribe trivial) e.chan (.upd e) ⟨hek, Or.inl he⟩
-        · exact minv_bad h
+        · rename_i v hv
+          have h1 := minv_recreate hO h e.chan v hk hb (by rw [hst, hproj, hv]; rfl)
+          exact minv_pushChan (minv_pushChan h1 e.chan .subscribe trivial) e.chan (.upd e) ⟨hek, Or.inl he⟩
+        · rename_i hv
+          split
+          · have h1 := minv_recreate hO h e.chan d.2 hk hb (by rw [hst, hproj, hv]; rfl)
+            have h2 : MInv O log keys org start ((m.recreate e.chan d.2).seqOp O (2 + e.chan)
+                (.seq storeOnlyShape (if O.creationStoresLocal then d.2 else e.pos) [])) := by
+              apply minv_seqOp hO hS h1
+              · intro b hb'
+                rw [getBox_recreate_same m e.chan d.2 hb] at hb'
+                rw [← Option.some.inj hb', hO.creationStoresLocal]
+                simp [wfOp, storeOnlyShape, diffShape, emptyShape, tooLongShape, cbOnlyShape]
+              · intro h1'; omega
+            exact minv_pushChan (minv_pushChan h2 e.chan .subscribe trivial) e.chan (.upd e) ⟨hek, Or.inl he⟩
+          · exact minv_bad h
+
+/-! ### A channel becomes inaccessible -/
+
+theorem queues_removeChan (m : Mgr) (c : Nat) : (m.removeChan c).queues = m.queues.filter (·.1 != c) := by
+  simp [Mgr.removeChan, Mgr.queues, List.filter_map, Function.comp_def]
+
+theorem minv_removeChan {O log keys org start m} (h : MInv O log keys org start m) (c : Nat) :
+    MInv O log keys org start (m.removeChan c) := by
+  refine ⟨coh_removeChan h.coh c, h.p0, h.q0, h.c0, ?_, h.internal, h.startP, h.startC, h.parked⟩
+  intro q hq
+  rw [queues_removeChan] at hq
+  exact h.queues q (List.mem_filter.1 hq).1
+
+theorem neutral_inaccessible (log : List Entry) (keys : List Nat) (c : Nat) : Neutral log keys [.inaccessible c] := by
+  intro k _; simp [projSeq]
 
 theorem minv_route {O log keys org start m} (hO : GoodOrders O) (hS : Scn log keys org)
     (h : MInv O log keys org start m) (e : Entry) (he : e ∈ log) :
@@ -508,10 +592,12 @@ theorem firstContact_common_boxes (O : Orders) (m : Mgr) (e : Entry) :
       · exact ⟨rfl, rfl⟩
       · rename_i d _
         split
-        · have := seqOp_chan_common O (m.addChan e.chan d.2) e.chan
-            (.seq storeOnlyShape (if O.creationStoresLocal then d.2 else e.pos) [])
-          exact ⟨this.1, this.2⟩
         · exact ⟨rfl, rfl⟩
+        · split
+          · have := seqOp_chan_common O (m.recreate e.chan d.2) e.chan
+              (.seq storeOnlyShape (if O.creationStoresLocal then d.2 else e.pos) [])
+            exact ⟨this.1, this.2⟩
+          · exact ⟨rfl, rfl⟩
 
 /-- Routing updates that are not of the common sequences leaves the pts and qts boxes alone. -/
 theorem route_common_boxes (O : Orders) (m : Mgr) (e : Entry) (he : ownCommon e = false) :
